@@ -26,7 +26,8 @@ REQUIRED_COUNTERS = {"towers": {"quick": 3000, "thorough": 60000},
                      "customize_combinations": {"quick": 80, "thorough": 80},
                      "identity_pairs": {"quick": 200, "thorough": 2000},
                      "identitydict_ops": {"quick": 20000, "thorough": 400000},
-                     "non_function_wrappers": {"quick": 1000, "thorough": 20000}}
+                     "non_function_wrappers": {"quick": 1000, "thorough": 20000},
+                     "nest_same_name_deeper_in_earlier_sibling": {"quick": 300, "thorough": 6000}}
 SHARD_TIMEOUT = {"quick": 400, "thorough": 5400}
 INTERPS = ["3.12", "3.11", "3.10", "3.9"]
 
@@ -190,7 +191,19 @@ def worker(spec):
         if rng.random() < 0.5 and depth > 1 and names[-1] != names[0]:
             # same name as the innermost function, but at another level of the nesting
             lines.append("    " * ind + "def %s(): return 'decoy-before'" % names[-1])
+        deep_decoy_level = rng.randrange(depth) if rng.random() < 0.5 else None
         for i, (k, nm) in enumerate(zip(kinds, names)):
+            if i == deep_decoy_level:
+                # an *earlier sibling* that contains, one or two levels down, something with the very name we
+                # are about to look up at this level (a local decorator's `wrapper`, a class's method `run`)
+                res.count("nest_same_name_deeper_in_earlier_sibling")
+                if rng.random() < 0.5:
+                    lines.append("    " * ind + "def sib%d(self=None):" % i)
+                    lines.append("    " * (ind + 1) + "def %s(): return 'decoy-deeper'" % nm)
+                    lines.append("    " * (ind + 1) + "return %s" % nm)
+                else:
+                    lines.append("    " * ind + "class Sib%d:" % i)
+                    lines.append("    " * (ind + 1) + "def %s(self): return 'decoy-deeper'" % nm)
             if k == "f":
                 lines.append("    " * ind + "def %s(%s):" % (nm, "self=None" if i and kinds[i - 1] == "c" else ""))
             else:
